@@ -18,11 +18,10 @@
     value;
   * `C03_decode_finds_definition` — in a well-formed class an AVP generated for
     a definition is mapped back to that definition and no other.
-  NOT proved (kept visible): the full object-level statement
-  `assign (decode (encode (generate obj))) = canon obj` for every object tree —
-  the assignment fold over association lists with list attributes and nested
-  containers is covered by the correspondence and the direct oracle only
-  (`C03_roundtrip_statement` below is the statement; no theorem has that type).
+  The full object-level statement — generate, encode, decode, assign restores
+  the object tree, nested containers and lists of containers included — is
+  `C03_roundtrip_nested` / `C03_roundtrip_wire` in C03Nested.lean (proved on top
+  of the lemmas here).
 -/
 import DV.Proofs.Typed
 import DV.Properties.C01
@@ -127,14 +126,5 @@ theorem C03_decode_finds_definition (defs : List AttrDef) (hdist : defsDistinct 
       simp [hnone]
     · have := ih hdist.2 hmem
       rw [this]; rfl
-
-/-- The full object-level round trip, as a statement (not proved; see the header). -/
-def C03_roundtrip_statement : Prop :=
-  ∀ (dict : DTree) (cs : List ClassDef) (g : Bool) (fuel cls : Nat) (obj : FVal) (avps : List Avp) (bytes : Bytes)
-    (decoded : List Avp) (back : FVal),
-    allClassesWF dict cs cs.length = true →
-    generateFuel rfcTime dict cs (fuel + 1) obj = .ok avps → encodeAvps avps = .ok bytes →
-    decodeAvps bytes 0 = .ok decoded → assignFuel (getValue rfcTime g) dict cs (fuel + 1) cls decoded = .ok back →
-    decoded = avps
 
 end DV
